@@ -12,6 +12,10 @@ let fuel = Zio.nat_of_int 5000
 let pr_out = function
   | Ret (c, r, y) -> Printf.printf "ret %s reads %d yields %d" (sz c) (Zio.int_of_nat r) (Zio.int_of_nat y)
   | OutOfFuel -> Printf.printf "outoffuel"
+let pr_ev l =
+  print_string " ev ";
+  if l = [] then print_string "-";
+  Stdlib.List.iter (function PRead _ -> print_char 'R' | PAttempt _ -> print_char 'A' | PYield -> print_char 'Y') l
 let () =
   try while true do
     let op = next () in
@@ -32,5 +36,21 @@ let () =
         pr_out o;
         (if op = "tjoin" then match o with Ret (Z0, _, _) -> Printf.printf " val 5a5a" | Ret _ -> Printf.printf " val 0" | _ -> ());
         print_newline ()
+     (* library tier: the clock script and the attempt script are the ones OBSERVED in a controlled run of the real
+        library; outcome from [nanosleep] / [timed], order of actions from [nanosleep_ev] / [timed_ev] *)
+     | "libsleep" ->
+        let rs = zs (next ()) in let rn = zs (next ()) in let c = read_clock () in
+        let o = nanosleep (clk_of c) fuel (rs, rn) in
+        let (o2, l) = nanosleep_ev (clk_of c) fuel (rs, rn) in
+        pr_out o; pr_ev l; (if o <> o2 then Printf.printf " INTERNAL-MISMATCH"); print_newline ()
+     | "libtimed" ->
+        let kind = next () in
+        let ds = zs (next ()) in let dn = zs (next ()) in
+        let na = nexti () in let a = Stdlib.List.init na (fun _ -> nexti () <> 0) in
+        let c = read_clock () in
+        let code = if kind = "lock" then coq_ETIMEDOUT else coq_EBUSY in
+        let o = timed (clk_of c) (att_of a) code fuel (ds, dn) in
+        let (o2, l) = timed_ev (clk_of c) (att_of a) code fuel (ds, dn) in
+        pr_out o; pr_ev l; (if o <> o2 then Printf.printf " INTERNAL-MISMATCH"); print_newline ()
      | _ -> failwith ("bad op " ^ op))
   done with End_of_file -> ()
